@@ -77,6 +77,9 @@ type A struct {
 	cg       *callgraph.Graph
 	allFuncs map[*ssa.Function]bool
 
+	locks    *Locks
+	apiReach map[*ssa.Function]bool
+
 	obs      []*Ob
 	curRule  string
 	floors   map[string]int
